@@ -11,6 +11,8 @@ def toIn : SIn → In
   | .tl l => .bytes (render l ++ ['\r', '\n'])
   | .lost => .lost
   | .whenDisc rid => .whenDisc rid
+  | .onDisc rid => .onDisc rid
+  | .reason clean => .reason clean
   | .addL n l c => .addL n l c
   | .remL n l c => .remL n l c
 
@@ -57,6 +59,8 @@ theorem step_refines (act : Nat → Act) (s : S) (p : P) (i : SIn) (hrel : Rel s
   | submit c => simp only [CtlSpec.step, Ctl.step, toIn, liftQ, hq]; exact ⟨⟨hf, rfl, hb, hd⟩, trivial⟩
   | lost => simp only [CtlSpec.step, Ctl.step, toIn, liftQ, hq]; exact ⟨⟨hf, rfl, hb, hd⟩, trivial⟩
   | whenDisc rid => simp only [CtlSpec.step, Ctl.step, toIn, liftQ, hq]; exact ⟨⟨hf, rfl, hb, hd⟩, trivial⟩
+  | onDisc rid => simp only [CtlSpec.step, Ctl.step, toIn, liftQ, hq]; exact ⟨⟨hf, rfl, hb, hd⟩, trivial⟩
+  | reason clean => simp only [CtlSpec.step, Ctl.step, toIn, hq]; exact ⟨⟨hf, rfl, hb, hd⟩, trivial⟩
   | addL n l c => simp only [CtlSpec.step, Ctl.step, toIn, liftQ, hq]; exact ⟨⟨hf, rfl, hb, hd⟩, trivial⟩
   | remL n l c =>
     simp only [CtlSpec.step, Ctl.step, toIn, hq]
